@@ -80,14 +80,22 @@ CLAIMS = {
          "One listed known finding: recursive types never terminate (shown by executing the generated code; natively a stack overflow). (2) Solver-decided text clauses on symbolic skeletons: the union function picks among exactly one call per member; the struct "
          "function assigns exactly the exported fields not tagged gomacro-data:\"ignore\"; fixed arrays filled over their length; enum choices = exported constants. NOT decided: variation between calls, maps with more than one distinct key, the C02 round trip of random values.",
          "DESIGN.md sections 0b (generated code executed) and 5 (C15)", ""),
- "C04": ("Bug hunting only for the headline (evaluation under PostgreSQL semantics is not encoded). Decided text clauses of generator/sql/json.go: for every type skeleton of depth<=2 every gomacro_validate_json_* function a body calls is defined exactly once and the "
-         "column type's own validator is defined; slices accept null and fixed arrays have jsonb_array_length(data) = Len, non-arrays rejected, elements validated; maps accept null, require objects, validate values; the enum validator lists exactly the constant values "
-         "(ints as written, strings single-quoted, symbolic string values); the struct validator rejects unknown keys and validates every exported field under its JSON key (symbolic names/tags). One listed known finding (validator name collisions across packages).",
-         "DESIGN.md section 5 (C04)", ""),
- "C03": ("Bug hunting only for the headline (inhabitation of TypeScript types by JSON documents needs a TypeScript semantics, not encoded). Decided text clauses: for every type skeleton of depth<=2 the output is self-contained: every type name it mentions "
-         "(through exported non-opaque fields, elements, keys, members) is declared exactly once and declared names are identifiers; slices and maps accept null; a fixed array of length 1..4 is a tuple alias with exactly Len elements, declared under the name references use; "
-         "an enum lists every constant once with its value (symbolic names); two structs of two packages never share a declaration (one listed known finding: equal local names). Union alternatives are covered under C02.",
-         "DESIGN.md section 5 (C03)", ""),
+ "C04": ("Two layers. (1) The headline on one REAL source package, by EVALUATING the generated validators: source text -> real go/parser + go/types -> analysis -> generator/sql Generate (the script) and gounions Generate (the wrappers); inside the engine (vfExec) a value of the jsonb "
+         "column's type is built (one component varying at a time; symbolic integers 0..9, strings of 0..2 bytes; nil/empty/populated slices and maps; union members struct / nil slice / empty slice / slice; recursive struct), marshalled under the encoding/json model, and the "
+         "column's CHECK function is evaluated on the document by an interpreter of the PL/pgSQL subset the generator emits, written in the checking file (three-valued logic with symbolic truth values, ->, ->>, #>>, ::int, IN, IF, CASE incl. case-not-found, DECLARE initialisers, "
+         "bool_and over jsonb_each / jsonb_array_elements ignoring NULLs and NULL on no row, a CHECK passing on TRUE or NULL): documents Go emits are admitted; 19 foreign documents (unknown key at two depths, wrong kinds, unknown Kind, Kind/Data mismatch, non-member int and string "
+         "enum values, wrong fixed-array lengths, null for a fixed array) evaluate to FALSE or an error. The PostgreSQL semantics is my transcription of its documentation: no PostgreSQL is available to validate it (the native twin runs the same interpreter on the real "
+         "encoding/json output). (2) Solver-decided text clauses on symbolic skeletons: def/use closure of gomacro_validate_json_* on every skeleton of depth<=2, null guards, array length clause, enum tuple, struct key list and per-field validation, union dispatch (1..2 members), "
+         "one CHECK per jsonb column per table; key lists of embedded structs on real sources. One fixed defect (null Data of a nil slice member rejected), one listed known finding (validator name collisions across packages).",
+         "DESIGN.md sections 0b (generated code executed) and 5 (C04)", ""),
+ "C03": ("Two layers. (1) The headline on one REAL source package, by EXECUTION: source text -> real go/parser + go/types -> analysis -> typescript Generate (the declarations) and gounions Generate (the wrappers); inside the engine (vfExec) a Doc value is built (one component "
+         "varying at a time: named int, int and string enums with an unexported constant, union with struct and slice members, slices nil/empty/populated, fixed arrays and arrays of arrays, maps keyed by string / named int / enum, recursive struct, empty struct, tags, '-', "
+         "omitempty and unexported fields; symbolic integers 0..9, strings of 0..2 bytes), marshalled under the encoding/json model, and the document is checked to inhabit the generated declarations, which the checking file parses (subset grammar of the generator: interfaces, "
+         "aliases, literal and union types, intersections with the opaque brand, tuples, arrays, Record, constant tables with (typeof X)[keyof typeof X], optional properties): same property names, primitive kinds, null where declared, tuple lengths, enum literal sets, "
+         "Kind/Data alternatives, Record keys; no type name declared twice, every name used is declared. The TypeScript semantics (structural typing of JSON values) is my transcription. (2) Real-source text checks (generic structs with permuted type arguments, embedded structs, "
+         "string enum literals decoded by the ECMAScript rules) and solver-decided text clauses on symbolic skeletons (closure, null markers, tuple arity, enum literals, one declaration per identifier). One fixed defect (omitempty fields were required properties), one listed "
+         "known finding (equal local names in two packages). NOT decided: floats, time values, []byte, the axios client (C14).",
+         "DESIGN.md sections 0b (generated code executed) and 5 (C03)", ""),
  "C02": ("Two layers. (1) The headline on one REAL source package, by EXECUTING the generated wrappers: source text -> real go/parser + go/types -> analysis -> gounions.Generate -> source, generated file and a checking file are type-checked and compiled to SSA "
          "inside the engine; the checking function builds a value (one component varying at a time: union field with tag, second union sharing a member, refining interface, nested struct, named slice and named map of unions nil/empty/2 entries; members: struct, "
          "unexported struct, named slice nil/non-nil, named map nil/non-nil, struct of two unions; symbolic integers 0..9 and strings of 0..2 bytes), marshals it, unmarshals the result and asserts deep equality (nil = empty), then reads the wire back: keys and encodings of "
